@@ -63,6 +63,12 @@ func genC05(t *rapid.T) c05Case {
 		c.Ops = append(c.Ops, c05Op{Op: "bind", Addr: a, Who: 0}, c05Op{Op: "dialany", Addr: a},
 			c05Op{Op: "bind", Addr: a, Who: rapid.SampledFrom([]int{2, 2, 1}).Draw(t, "jw")}, c05Op{Op: "dial", Addr: a})
 	}
+	if rapid.IntRange(0, 3).Draw(t, "latestanding") == 0 {
+		// X connects in from its address first; only then a standing request to dial X there is added; the link goes away
+		// and X is dialed again
+		a := rapid.IntRange(0, 1).Draw(t, "la")
+		c.Ops = append(c.Ops, c05Op{Op: "bind", Addr: a, Who: 1}, c05Op{Op: "inbound", Addr: a}, c05Op{Op: "standing", Addr: a}, c05Op{Op: "kill"}, c05Op{Op: "dial", Addr: a})
+	}
 	if rapid.IntRange(0, 2).Draw(t, "takeover") == 0 {
 		// D keeps a standing dial of X at an address and holds a link there; X drops off the network without a word, an
 		// impostor takes the address over and connects into D from it, then leaves again
@@ -228,6 +234,9 @@ func checkDial(c c05Case, refusalOnly bool) (o vstat.Outcome) {
 		}
 	}()
 	var hist []string
+	if c.Static == 1 || c.Static == 2 {
+		hist = append(hist, fmt.Sprintf("[X statically configured at %s]", addrs[c.Static-1]))
+	}
 	impostorAnswered := false
 	keylessDial := false
 	X := gen.PeerID(1)
@@ -347,6 +356,18 @@ func checkDial(c c05Case, refusalOnly bool) (o vstat.Outcome) {
 					return
 				}
 			}
+		case "standing":
+			// from here on a request to dial X at the address is kept referenced (a DialTptAddr directive, as a configured
+			// peer address gives)
+			_, sref, serr := tb.Bus.AddDirective(tptaddr.NewDialTptAddr(&dialer.DialerOpts{Address: "mem|" + string(addrs[op.Addr]), Backoff: fastDialBackoff()}, gen.PeerID(0), gen.PeerID(1)), nil)
+			if serr != nil {
+				o.Discard = true
+				return
+			}
+			defer sref.Release()
+			time.Sleep(30 * time.Millisecond)
+			o.Classes = append(o.Classes, "standing-request-added-mid-history")
+			hist = append(hist, fmt.Sprintf("standing(X@%s)", addrs[op.Addr]))
 		case "vanish":
 			// whoever serves the address drops off the network: nothing it still sends arrives (no goodbye)
 			if s := servers[op.Addr]; s != nil {
@@ -443,11 +464,17 @@ func checkDial(c c05Case, refusalOnly bool) (o vstat.Outcome) {
 		o.Classes = append(o.Classes, "static-dial-address-for-X")
 		// the dial kept going by the held request alone brings the link back: it kept retrying while X was away
 		for a := c.Static - 1; a < c.Static; a++ {
-			if !waitForT(8*time.Second, func() bool {
+			t0 := time.Now()
+			linked := func() bool {
 				l, ok := dtpt.LookupLinkWithAddr(string(addrs[a]))
 				return ok && l.GetRemotePeer() == X
-			}) {
-				o.V = vstat.Viol("standing-dial-gave-up", "after %s, all links gone and X now serving %s: the dial of X at its statically configured address (kept going by a held request for a link to X) did not produce a link within 8 s", strings.Join(hist, " "), addrs[a])
+			}
+			if !waitForT(8*time.Second, linked) {
+				// slow is not the same as never: sessions of the history that were never closed time out first
+				o.Classes = append(o.Classes, "static-dial-slow-to-recover")
+			}
+			if !waitForT(45*time.Second, linked) {
+				o.V = vstat.Viol("standing-dial-gave-up", "after %s, all links gone and X now serving %s: the dial of X at its statically configured address (kept going by a held request for a link to X) did not produce a link within %v", strings.Join(hist, " "), addrs[a], time.Since(t0).Round(time.Second))
 				return
 			}
 		}
